@@ -74,6 +74,15 @@ struct Model {
                 json r = box.call(act);
                 if (r["res"] != "ok") throw std::runtime_error("build call rejected: " + act.dump() + " " + r.value("ex", ""));
             }
+            // "tiny": terms with amplitude 2^-exp added to the lattice but NOT told to the specification: a perturbation that is numerically
+            // non-zero and breaks a symmetry of the model the specification knows (the partition must not be finer than the real H allows)
+            if (sc.count("tiny")) for (const json& t : sc["tiny"]) {
+                json tt = {{"ops", t.at("ops")}, {"v", 1}};
+                Lattice::Term* T = LatticeBox::mk_term(tt, 1);
+                T->Value = mk_melem(std::ldexp(1.0, -t.at("exp").get<int>()), 0);
+                L->addTerm(T);
+                delete T;
+            }
         });
     }
     bool build_index() {
@@ -371,6 +380,17 @@ struct Model {
             bm.push_back(json::array({json::array({json::array({1, i}), json::array({0, j})}), pairs(A)}));
         }
         r["bimaps"] = bm;
+        // H applied as an operator expression to every Fock state: images outside the state's own block (any non-zero amplitude counts)
+        json cross = json::array();
+        unsigned long NS = 1ul << M;
+        for (unsigned long f = 0; f < NS && cross.size() < 8; ++f) {
+            FockState ket(IC->getIndexSize(), f);
+            std::map<FockState, MelemType> img = HS->actRight(ket);
+            for (auto& kv : img)
+                if (kv.second != MelemType(0) && S->getBlockNumber(kv.first) != S->getBlockNumber(ket) && cross.size() < 8)
+                    cross.push_back(json::array({(long)kv.first.to_ulong(), (long)f, dstr(std::abs(kv.second))}));
+        }
+        r["cross"] = cross;
     }
 
     // C03: exact prepared matrix, then the eigen-system with residuals computed against that prepared matrix
